@@ -46,7 +46,32 @@ class _TFLeaf:
         self.x, self.as_list = x, as_list
 
     def tagify(self):
+        if self.as_list == "after":
+            return ht.TagList(span("label"), self.x)
+        if self.as_list == "after3":
+            return ht.TagList("a", span(), self.x).tagify()
+        if self.as_list == "empty":
+            return ht.TagList()
         return ht.TagList(self.x, "y") if self.as_list else self.x
+
+
+def _dep(name="c02dep"):
+    return ht.HTMLDependency(name, "1.0", head="<meta name='%s'>" % name)
+
+
+def _head_content_after_html_twin(x):
+    """Another widget put the same characters into the head as markup; the plain text twin is still there, and inert.
+    (The raw twin - emitted first - and the listing line are cut out of the result.)"""
+    import re as _re
+
+    sx = str.__str__(x) if isinstance(x, str) else str(x)
+    # (a fixed "<" goes with the leaf, so that the two heads differ as markup whatever the leaf is)
+    page = ht.TagList(div("widget", ht.head_content(ht.HTML("<"), ht.HTML(sx))), div("debug", ht.head_content("<", x)))
+    out = ht.HTMLDocument(page).render()["html"]
+    out = _re.sub(r"<script type=\"application/html-dependencies\">[^<]*</script>", "<listing/>", out, count=1)
+    at = out.index("<listing/>") + len("<listing/>")
+    i = out.index("<" + sx, at)
+    return out[:i] + "<TWIN/>" + out[i + 1 + len(sx):]
 
 
 def _app(t, *xs):
@@ -230,6 +255,10 @@ PATHS = {
     "insert_front_only": lambda x: _ins(div(), 0, x).get_html_string(),
     "tagify_single": lambda x: div(_TFLeaf(x, False)).render()["html"],
     "tagify_list": lambda x: div(span(), _TFLeaf(x, True)).render()["html"],
+    "tagify_list_then_dependency": lambda x: div(_TFLeaf(x, "after"), _dep()).render()["html"],
+    "tagify_list3_then_dependencies": lambda x: str(ht.TagList(_TFLeaf(x, "after3"), "t", _dep("a"), span(), _dep("b"))),
+    "tagify_empty_then_text_then_dependency": lambda x: div(_TFLeaf(None, "empty"), x, _dep(), _TFLeaf(x, "after"), _dep("z")).render()["html"],
+    "head_content_after_html_twin": _head_content_after_html_twin,
     "str_tag": lambda x: str(div(x, ht.tags.i())),
     "render_tag": lambda x: p(x).render()["html"],
     "repr_html": lambda x: div(div(x))._repr_html_(),
@@ -249,7 +278,7 @@ PATHS = {
 # paths whose operation takes a node or an iterable, not a bare number (item assignment stores what it is given: numbers are
 # converted by the child-adding operations - constructor, append, extend, insert, + - which is where the statement puts them)
 NOT_FOR_NUMBERS = ("taglist_add", "taglist_radd", "tagify_single", "taglist_iadd_str", "setitem_after_render", "setitem_taglist_after_render", "slice_assign_after_render")
-QUICK_BLOCK_PATHS = ["only_child_block", "middle_inline", "list_indent3", "tagify_list", "append", "between_blocks", "saved_file_tag", "json_roundtrip_head_text"]
+QUICK_BLOCK_PATHS = ["tagify_list_then_dependency", "only_child_block", "middle_inline", "list_indent3", "tagify_list", "append", "between_blocks", "saved_file_tag", "json_roundtrip_head_text"]
 
 
 def _tagseq(s):
